@@ -37,7 +37,14 @@ impl Server {
         for attempt in 0..5 {
             let port = free_port().map_err(|e| e.to_string())?;
             let log = dir.join(format!("server-{port}.log"));
-            let logf = std::fs::File::create(&log).map_err(|e| e.to_string())?;
+            // the service logs at debug level unconditionally (every diagram node of every task): gigabytes for long
+            // tasks. Its stderr is only kept on request (VERIF_SERVER_LOG=1).
+            let keep_log = std::env::var("VERIF_SERVER_LOG").map(|v| v == "1").unwrap_or(false);
+            let logf = if keep_log {
+                std::fs::File::create(&log).map_err(|e| e.to_string())?
+            } else {
+                std::fs::OpenOptions::new().write(true).open("/dev/null").map_err(|e| e.to_string())?
+            };
             let child = Command::new(server_bin())
                 .current_dir(&dir)
                 .env("MONGODB_URI", stub.uri())
@@ -49,6 +56,8 @@ impl Server {
                 .stderr(Stdio::from(logf))
                 .spawn()
                 .map_err(|e| format!("cannot start {}: {e}", server_bin().display()))?;
+            // the driver kills servers that outlive the harness process (statics are not dropped on exit)
+            let _ = std::fs::write(dir.join(format!("server-{}.pid", child.id())), child.id().to_string());
             let mut srv = Server { child, port, stub: stub.share(), log };
             let t0 = Instant::now();
             loop {
